@@ -5,6 +5,7 @@ package core
 
 import (
 	"cmp"
+	"strings"
 
 	"github.com/apmckinlay/gsuneido/core/types"
 	"github.com/apmckinlay/gsuneido/util/dnum"
@@ -260,7 +261,12 @@ func intable(s string, exp int8, xor byte) bool {
 	if exp < e || (exp == e && (s[len(s)-1]^xor)%10 != 0) {
 		return false // has a fractional part
 	}
-	return PackedMinInt64 <= s && s <= PackedMaxInt64
+	if s[0] == PackMinus {
+		// the byte order of negative numbers is reversed except that
+		// a proper prefix sorts first although it is the larger number
+		return PackedMinInt64 <= s || strings.HasPrefix(PackedMinInt64, s)
+	}
+	return s <= PackedMaxInt64
 }
 
 func unpackDnum(s string, sign, exp int8, xor byte) dnum.Dnum {
